@@ -13,6 +13,7 @@
 From Coq Require Import NArith ZArith List Bool.
 From Cloak Require Import Gen.Consts Model.Hello Model.FirstPacket Model.Dispatch Proofs.Dispatch.
 From Cloak Require Import Model.Crypto.X25519 Model.DispatchInst Model.LowOrder Proofs.LowOrder.
+From Cloak Require Import Model.ServerInit Proofs.ServerInit.
 Import ListNotations.
 Local Open Scope N_scope.
 
@@ -221,3 +222,102 @@ Theorem C07_accepted_is_sealed : forall (dh : list N -> list N -> option (list N
     length pt = 48%nat /\ in_window (pt_ts pt) now = true /\ ci = info_of pt.
 Proof. exact accepted_is_sealed_to_server. Qed.
 Print Assumptions C07_accepted_is_sealed.
+
+(* ------------------------------------------------------------------------------------------------------
+   The configuration layer.  The theorems above quantify over an arbitrary server State; the State a server really
+   runs with is the one InitState (internal/server/state.go) builds from its RawConfig.  Model/ServerInit.v models
+   that function (the resolvers and the database file are parameters); wf_uids rc = every configured UID has exactly
+   16 bytes.  WHO IS SERVED WITHOUT CONSULTING THE USER DATABASE: exactly the configured BypassUID entries plus the
+   configured AdminUID - and nobody when none is configured. *)
+Theorem C07_config_bypass_exact : forall resolve_ip resolve_addr db_open rc io, wf_uids rc ->
+  init_state resolve_ip resolve_addr db_open rc = IOk io ->
+  forall uid, In uid (st_bypass (io_state io)) <->
+              In uid (rc_bypass rc) \/ (rc_admin rc <> [] /\ uid = rc_admin rc).
+Proof. exact init_bypass_exact. Qed.
+Print Assumptions C07_config_bypass_exact.
+
+Theorem C07_config_nothing_configured : forall resolve_ip resolve_addr db_open rc io,
+  init_state resolve_ip resolve_addr db_open rc = IOk io ->
+  rc_bypass rc = [] -> rc_admin rc = [] -> st_bypass (io_state io) = [] /\ st_db (io_state io) = [].
+Proof. exact init_nothing_configured. Qed.
+Print Assumptions C07_config_nothing_configured.
+
+(* GetUser / GetBypassUser on that State (nobody is active yet): configured, or authorised by the database; with the
+   Voidmanager (no AdminUID or no DatabasePath) the configured UIDs are all there is *)
+Theorem C07_config_get_user : forall resolve_ip resolve_addr db_open rc io, wf_uids rc ->
+  init_state resolve_ip resolve_addr db_open rc = IOk io ->
+  forall uid now, (exists a, get_user (io_state io) uid now = Some a) <->
+    (In uid (rc_bypass rc) \/ (rc_admin rc <> [] /\ uid = rc_admin rc) \/ db_authorises (io_state io) uid now).
+Proof. exact init_get_user. Qed.
+Theorem C07_config_void_get_user : forall resolve_ip resolve_addr db_open rc io, wf_uids rc ->
+  init_state resolve_ip resolve_addr db_open rc = IOk io -> io_local_manager io = false ->
+  forall uid now, (exists a, get_user (io_state io) uid now = Some a) <->
+    (In uid (rc_bypass rc) \/ (rc_admin rc <> [] /\ uid = rc_admin rc)).
+Proof. exact init_void_get_user. Qed.
+Print Assumptions C07_config_get_user.
+Print Assumptions C07_config_void_get_user.
+
+(* the admin gate and the served methods in terms of the configuration *)
+Theorem C07_config_admin : forall resolve_ip resolve_addr db_open rc io,
+  init_state resolve_ip resolve_addr db_open rc = IOk io -> forall ci,
+  admin_ok (io_state io) ci <-> rc_admin rc <> [] /\ ci_uid ci = rc_admin rc /\ ci_sid ci = 0.
+Proof. exact init_admin_ok. Qed.
+Theorem C07_config_book : forall resolve_ip resolve_addr db_open rc io,
+  init_state resolve_ip resolve_addr db_open rc = IOk io -> forall m,
+  In m (st_proxyBook (io_state io)) <->
+  exists name network address, In (name, [network; address]) (rc_book rc) /\ m = lower name /\
+    (lower network = tcp \/ lower network = udp).
+Proof. exact init_book. Qed.
+Print Assumptions C07_config_admin.
+Print Assumptions C07_config_book.
+
+(* composed with the decision: sessions on the State InitState built *)
+Theorem C07_config_proxy_sound : forall resolve_ip resolve_addr db_open
+  (dh : list N -> list N -> option (list N)) (gcm_open : list N -> list N -> list N -> list N -> option (list N)),
+  (forall k n ct aad pt, gcm_open k n ct aad = Some pt -> (length pt + 16 = length ct)%nat) ->
+  forall rc io, wf_uids rc -> init_state resolve_ip resolve_addr db_open rc = IOk io ->
+  forall p now uid sid m enc un,
+  decide dh gcm_open p (io_state io) now = ProxySession uid sid m enc un ->
+  exists ci, valid_cloak dh gcm_open p (io_state io) now ci /\ uid = ci_uid ci /\
+    (In uid (rc_bypass rc) \/ (rc_admin rc <> [] /\ uid = rc_admin rc) \/ db_authorises (io_state io) uid now) /\
+    (exists name network address, In (name, [network; address]) (rc_book rc) /\ m = lower name /\
+       (lower network = tcp \/ lower network = udp)).
+Proof. exact config_proxy_sound. Qed.
+Print Assumptions C07_config_proxy_sound.
+
+Theorem C07_config_bypass_served : forall resolve_ip resolve_addr db_open
+  (dh : list N -> list N -> option (list N)) (gcm_open : list N -> list N -> list N -> list N -> option (list N)),
+  (forall k n ct aad pt, gcm_open k n ct aad = Some pt -> (length pt + 16 = length ct)%nat) ->
+  forall rc io, wf_uids rc -> init_state resolve_ip resolve_addr db_open rc = IOk io ->
+  forall p now ci,
+  valid_cloak dh gcm_open p (io_state io) now ci -> known_enc (ci_enc ci) = true ->
+  ~ (rc_admin rc <> [] /\ ci_uid ci = rc_admin rc /\ ci_sid ci = 0) ->
+  In (ci_method ci) (st_proxyBook (io_state io)) ->
+  (In (ci_uid ci) (rc_bypass rc) \/ (rc_admin rc <> [] /\ ci_uid ci = rc_admin rc)) ->
+  decide dh gcm_open p (io_state io) now =
+    ProxySession (ci_uid ci) (ci_sid ci) (ci_method ci) (ci_enc ci) (ci_unordered ci).
+Proof. exact config_bypass_served. Qed.
+Print Assumptions C07_config_bypass_served.
+
+(* and nobody else: without a database behind the server, a valid credential whose UID is neither a configured bypass
+   entry nor the configured admin is web traffic - e.g. the all-zero UID on a server without an AdminUID *)
+Theorem C07_config_unconfigured_is_web : forall resolve_ip resolve_addr db_open
+  (dh : list N -> list N -> option (list N)) (gcm_open : list N -> list N -> list N -> list N -> option (list N)),
+  (forall k n ct aad pt, gcm_open k n ct aad = Some pt -> (length pt + 16 = length ct)%nat) ->
+  forall rc io, wf_uids rc -> init_state resolve_ip resolve_addr db_open rc = IOk io -> io_local_manager io = false ->
+  forall p now ci,
+  auth_first_packet dh gcm_open p (io_state io) now = DOk ci ->
+  ~ In (ci_uid ci) (rc_bypass rc) -> ~ (rc_admin rc <> [] /\ ci_uid ci = rc_admin rc) ->
+  exists why, decide dh gcm_open p (io_state io) now = Redirect why.
+Proof. exact config_unconfigured_is_web. Qed.
+Print Assumptions C07_config_unconfigured_is_web.
+
+(* the premise wf_uids is needed: InitState copies every entry into ONE shared 16-byte array, so an entry shorter than
+   16 bytes inherits the tail of the entry before it (zeros for the first), a longer one is cut *)
+Theorem C07_config_short_entry_inherits :
+  bypass_keys [repeat 0xaa 16; [1; 2; 3]] [] = [[1; 2; 3] ++ repeat 0xaa 13; repeat 0xaa 16] /\
+  bypass_keys [[1; 2; 3]] [] = [[1; 2; 3] ++ repeat 0 13] /\
+  bypass_keys [repeat 0xaa 16] [7; 7] = [[7; 7] ++ repeat 0xaa 14; repeat 0xaa 16] /\
+  bypass_keys [repeat 0xaa 16 ++ [1; 2]] [] = [repeat 0xaa 16].
+Proof. exact short_entry_inherits. Qed.
+Print Assumptions C07_config_short_entry_inherits.
